@@ -35,6 +35,16 @@ CLAIMED = {
    note='PARTIAL at proof level: local facts proved for all states; cluster statement validated differentially (timely constructions with purges at arbitrary points, 1-3 replicas, both sources). Trusted: Lean kernel + standard axioms; model tied by the correspondence run.',
    technique='Lean 4 proof (purge characterisation, refusal after purge) + model/implementation correspondence check with LWW oracle',
    ref='§8 C08'),
+ 'C12': dict(
+   text='Lean 4 theorems about the frame layer (bitwise CRC-32/ISO-HDLC model, to_view_bytes trailer, DataView::using incl. the length guard): frame_roundtrip and value_roundtrip (with the codec assumption), single_bit_flip_rejected for EVERY body of any length and EVERY bit of body or trailer (the CRC register update is affine over GF(2) and the zero-input update is injective at 0 - proved by hand, no bv_decide), short_frame_rejected for every frame below root+trailer, no handler on a refused frame. Tied to the code by differential execution at byte level (crc32fast and DataView::using vs model) plus implementation-side value round trips with exhaustive bit flips/truncations of real rkyv frames up to 2 KiB (strided to 1 MiB) and end-to-end echo/error calls over loopback.',
+   note='PARTIAL where the truth is in the runtime: rkyv layout/alignment/unchecked cast are a codec assumption for the model and are only observed; hyper/h2 transport is exercised, not modelled. Trusted: Lean kernel + standard axioms; model of crc32fast and of DataView::using tied by the correspondence run.',
+   technique='Lean 4 proof (CRC linearity over GF(2), frame round trip, length guard) + model/implementation correspondence check',
+   ref='§8 C12'),
+ 'C13': dict(
+   text='Lean 4 theorems about the executable model of ServerState (services map, handlers map, add_handlers, remove_handlers, get_handler): after ANY sequence of add/remove events, a key of service n is served iff n was added and not removed since (and by the most recently added instance); keys nobody owns are never served; removing a service neither disables others nor leaves anything behind. Negation witness for the pinned retain predicate (D4). Tied to the code by a real Server on loopback: all event sequences up to length 3 (quick) / 5 (thorough) with all four (service, message) pairs sent after every event.',
+   note='Trusted: Lean kernel + standard axioms; SipHash injectivity on the URIs in play (disjoint key sets per service name); transport exercised, not modelled.',
+   technique='Lean 4 proof (invariant over registry histories, refinement to a last-event spec) + model/implementation correspondence check',
+   ref='§8 C13'),
 }
 NA_REASON = 'check not built yet (work in progress; see DESIGN.md section 8)'
 
